@@ -1,0 +1,37 @@
+//go:build verif
+
+package engine
+
+//@ -- reflect (assumptions, transcribed from the package documentation): "ValueOf returns a new Value initialized to the
+//@ -- concrete value stored in the interface i"; "Elem returns the value that the interface v contains or that the pointer v
+//@ -- points to"; "Field returns the i'th field of the struct v" - each a function of its arguments (the Value is a
+//@ -- description of the same variable every time), none writes program memory
+//@ extern reflect.ValueOf
+//@   pure
+//@   deterministic
+//@ extern reflect.Value.Elem
+//@   pure
+//@   deterministic
+//@ extern reflect.Value.Field
+//@   pure
+//@   deterministic
+
+//@ func NewParser
+//@   property C15
+//@   requires vm != nil
+//@   nosafety
+//@   modifies vm.operators
+//@   ensures[a-parser-of-its-own] result != nil && fresh(result)
+//@   ensures[reads-under-the-current-double-quotes-flag] result.doubleQuotes == old(vm.doubleQuotes)
+//@   ensures[reads-with-the-current-operators] result.operators == vm.operators
+//@   ensures[starts-without-a-placeholder-or-arguments] result.placeholder == 0 && len(result.args) == 0 && len(result.Vars) == 0
+//@   ensures[the-operator-table-is-only-created-when-missing] old(vm.operators) != nil ==> vm.operators == old(vm.operators)
+
+//@ -- the stream TermString.Scan (and the messages of a failed load) write into: a fresh text stream that appends to the
+//@ -- writer given, nothing else set
+//@ func NewOutputTextStream
+//@   property C15
+//@   modifies nothing
+//@   ensures[a-fresh-text-stream-over-that-writer] result != nil && fresh(result) && result.sink == w && result.streamType == streamTypeText &&
+//@       result.mode == ioModeAppend && result.eofAction == eofActionReset && !result.reposition
+//@   ensures[nothing-else-is-set] result.vm == nil && result.source == nil && result.lastRuneSize == 0 && result.alias == 0 && result.position == 0 && result.endOfStream == 0
